@@ -403,6 +403,26 @@ class Index:
         return None
     return obj
 
+  def deref(self, module: Module, expr, cls: typing.Optional[ClassInfo] = None, func: typing.Optional[FuncInfo] = None, depth: int = 3):
+    """The expression a Name / dotted constant stands for: a module- or class-level name that is
+    assigned once resolves to the assigned expression (followed `depth` times); anything else is
+    returned unchanged.  `self.X` / `cls.X` are read as `<enclosing class>.X`."""
+    for _ in range(depth):
+      if not isinstance(expr, (ast.Name, ast.Attribute)):
+        break
+      e = expr
+      if isinstance(e, ast.Attribute) and isinstance(e.value, ast.Name) and e.value.id in ("self", "cls") and cls is not None:
+        r = self.member(cls, e.attr)
+      else:
+        r = self.resolve(module, e, cls=cls, func=func)
+      if isinstance(r, tuple) and r and r[0] == "assign":
+        module, expr = r[1], r[2]
+        cls = r[3] if len(r) > 3 else None
+        func = None
+      else:
+        break
+    return expr
+
   def mro(self, ci: ClassInfo) -> typing.List[ClassInfo]:
     out, seen = [], set()
 
